@@ -372,7 +372,14 @@ func IsSameWorkloadRefGVKName(a, b *appsv1beta1.ObjectRef) bool {
 	if a == nil || b == nil {
 		return false
 	}
-	return reflect.DeepEqual(a, b)
+	// a workload is identified by group, kind and name (that is how the workload finders resolve the reference):
+	// "apps/v1" and "apps/v1beta1" name the same Deployment
+	agv, aerr := schema.ParseGroupVersion(a.APIVersion)
+	bgv, berr := schema.ParseGroupVersion(b.APIVersion)
+	if aerr != nil || berr != nil {
+		return reflect.DeepEqual(a, b)
+	}
+	return agv.Group == bgv.Group && a.Kind == b.Kind && a.Name == b.Name
 }
 
 var _ inject.Client = &RolloutCreateUpdateHandler{}
